@@ -48,6 +48,17 @@ Theorem region_not_handed_out_while_in_use : forall c ops o a' x, wf_cfg c ->
 Proof. exact handout_reach. Qed.
 Print Assumptions region_not_handed_out_while_in_use.
 
+(** ... in the monitor's vocabulary: for a protocol-keeping caller, every
+    earlier handle on the region handed out is dead (released by its owner, no
+    unfinished reader / writer). *)
+Theorem region_not_handed_out_while_handle_live : forall c ops o a' x h b, wf_cfg c ->
+  proto_ok c (init_a c) ops = true ->
+  step c (reach c ops) o = (a', RHanded x) ->
+  nth_error (a_blks (reach c ops)) h = Some b -> b_off b = x ->
+  b_rel b = true /\ count_open h (a_pins (reach c ops)) = O.
+Proof. exact handout_handles_dead. Qed.
+Print Assumptions region_not_handed_out_while_handle_live.
+
 (** Clause 2: NewBlock reports Unavailable only when every region is in use;
     if some region is not in use it hands one out. *)
 Theorem unavailable_only_when_all_regions_in_use : forall c ops, wf_cfg c ->
